@@ -1,6 +1,7 @@
 """vf -- entry point:  vf check <Cxx> [--tier quick|thorough]   |  vf replay <file>  |  vf explain <Cxx>
                       |  vf selftest  |  vf list"""
 from __future__ import annotations
+import collections
 import argparse, json, os, random, sys, time, traceback, hashlib
 import multiprocessing as mp
 
@@ -22,6 +23,9 @@ ASSUMPTIONS = {
     "R7": "R7 numba is absent: @numba_util.jit() kernels run as plain CPython (checked: numba not importable)",
     "T": "partial correctness only: termination of while-loops is not proved",
 }
+
+
+HISTORY = 16      # preceding inputs of the same check kept with a failure (history-dependent violations)
 
 
 def _task(t):
@@ -57,6 +61,7 @@ def run_contract_search(key, tier, seed):
     t0 = time.time()
     limit_s = {"quick": 6.0, "large": 150.0}.get(tier, 60.0)
     seen = set()
+    hist = collections.deque(maxlen=HISTORY)
     for kwargs in gen(rng, tier):
         out["evaluations"] += 1
         o = rtc.run_contract(c, kwargs)
@@ -72,9 +77,10 @@ def run_contract_search(key, tier, seed):
             out["samples"].append(rtc.to_jsonable(kwargs))
         if o.status == "fail":
             out["failures"].append({"inputs": rtc.to_jsonable(kwargs), "clause": o.clause, "detail": o.detail,
-                                    "observed": o.observed})
+                                    "observed": o.observed, "history": list(hist)})
             if len(out["failures"]) >= 5:
                 break
+        hist.append(rtc.to_jsonable(kwargs))
         if time.time() - t0 > limit_s:
             out["truncated"] = True
             break
@@ -92,6 +98,7 @@ def run_bounded(cid, tier, seed):
     t0 = time.time()
     limit_s = 10.0 if tier == "quick" else 120.0
     seen = set()
+    hist = collections.deque(maxlen=HISTORY)
     for inputs in chk.gen(rng, tier):
         out["evaluations"] += 1
         try:
@@ -107,9 +114,10 @@ def run_bounded(cid, tier, seed):
         if len(out["samples"]) < 2:
             out["samples"].append(js)
         if msg is not None:
-            out["failures"].append({"inputs": js, "clause": cid, "detail": msg})
+            out["failures"].append({"inputs": js, "clause": cid, "detail": msg, "history": list(hist)})
             if len(out["failures"]) >= 5:
                 break
+        hist.append(js)
         if time.time() - t0 > limit_s:
             out["truncated"] = True
             break
@@ -324,11 +332,21 @@ def cmd_check(pid, tier, seed, opts):
                 continue
             out = rtc.Outcome("fail", f.get("clause"), f.get("detail"), f.get("observed"))
             path = rtc.write_replay(pid, kind, where, rtc.from_jsonable(f["inputs"]), out)
-            again = rtc.replay(path)          # re-execute from the file before reporting
+            again = rtc.replay_isolated(path)          # re-execute from the file, in a fresh interpreter, before reporting
+            if again.status != "fail" and f.get("history"):
+                # the failure needs the calls that preceded it (module- or object-level state in the code under check): find the
+                # shortest suffix of the recorded history after which the input fails again, and file that with the replay
+                os.remove(path)
+                for n in range(1, len(f["history"]) + 1):
+                    path = rtc.write_replay(pid, kind, where, rtc.from_jsonable(f["inputs"]), out, extra={"history": f["history"][-n:]})
+                    again = rtc.replay_isolated(path)
+                    if again.status == "fail":
+                        break
+                    os.remove(path)
             if again.status == "fail":
                 violations.append((where, f.get("clause"), path, ""))
             else:
-                errors.append((where, "failure did not reproduce from its replay file %s" % path))
+                errors.append((where, "failure did not reproduce from its replay file (alone or after the %d preceding inputs)" % len(f.get("history") or [])))
 
     for key, r in C.items():
         if r.get("status") == "checker-error":
